@@ -34,6 +34,9 @@ import GocoinV.Proofs.C20Once
 import GocoinV.Proofs.C20Ptr
 import GocoinV.Proofs.C20Count
 import GocoinV.Proofs.C20Lock
+import GocoinV.Proofs.C20Total
+import GocoinV.Proofs.C20Clobber
+import GocoinV.Proofs.C20Example
 namespace GocoinV.Props.C20
 open GocoinV.Alloc GocoinV.Gen.MemClasses
 
@@ -109,10 +112,10 @@ theorem malloc_never_fails {V : Type} (s : State V) (inv : Inv s) (size : Nat) :
     ∃ s' a, malloc s size = .ok (s', a) := malloc_total inv.g size
 
 -- non-vacuity: the hypotheses of the theorems in this file are satisfiable and traces exist
--- (`Inv s`, a live allocation, successful Malloc / Free / write / defrag steps).  Passes that really
--- relocate cannot be exhibited by kernel evaluation (Std.HashMap does not reduce in the kernel); the
--- correspondence run feeds the model the passes of the real allocator and counts the accepted ones
--- (evidence histogram `defrag:pass relocated=…`).
+-- (`Inv s`, a live allocation, successful Malloc / Free / write / defrag steps).  A relocating defragClass pass is
+-- exhibited by `relocating_pass_witness` below (evaluated by simp; Std.HashMap does not reduce in the kernel);
+-- relocating passes of `defragAll` (above the 12 MB trigger) come from the correspondence run, which feeds the
+-- model the passes of the real allocator and counts the accepted ones (evidence `defrag:pass relocated=…`).
 example : Inv (init : State Nat) := init_inv
 example : ∃ s a, run (init : State Nat) [.malloc 10] = .ok s ∧ s.isLive a ∧ Inv s := by
   obtain ⟨s', a, h⟩ := malloc_total (init_inv (V := Nat)).g 10
@@ -143,6 +146,121 @@ example : ∃ s', step (init : State Nat) (.defrag []) = .ok s' := by
   refine ⟨{ (init : State Nat) with relog := [] }, ?_⟩
   simp only [step, defragAll]
   exact hf _ _ (by intro c; simp [wantsDefrag, State.K, init])
+
+/-! ### totality: the `.corrupt` exits of the model ("the Go code would dereference nil / an unmapped page
+    here") are unreachable — for the defragmentation pass too -/
+
+/-- defragClass never fails on an evacuation order its selection rule accepts.  `choiceOk s c ev`
+(Proofs/C20Total.lean) is the decidable acceptance test of defragClass itself, written as one Boolean: no
+non-full page or nothing to move ⇒ only the empty order; otherwise `legalChoice` (distinct non-full pages
+whose `used` values are those of the sorted prefix the selection loop takes).  From `Inv s` and an accepted
+order every exit `.corrupt` of beginEvac (page missing), moveNext (page missing / not evacuating / slot below
+brk neither saved-free nor live), allocSlot (nil list head / unmapped page), evacPage and endEvac
+(scan ≠ brk) is unreachable; a rejected order fails with `.illegalChoice` before the state is touched. -/
+theorem defragClass_total {V : Type} (s : State V) (inv : Inv s) (c : Nat) (hc : c < nClasses) (ev : List Nat) :
+    (choiceOk s c ev = true → ∃ s', defragClass s c ev = .ok s') ∧
+    (choiceOk s c ev = false → defragClass s c ev = .error .illegalChoice) :=
+  ⟨fun h => Alloc.defragClass_total hc inv h, fun h => defragClass_illegal h⟩
+
+/-- A whole DefragAllImproved pass succeeds from every state satisfying `Inv` exactly when the offered
+choice is accepted class after class (`PassLegal`: class c's order satisfies `classLegal` — the trigger
+test plus `choiceOk` — in the state in which the pass reaches class c).  So the hypothesis
+`defragAll s ch = .ok s'` of `step_inv`, `contents_preserved`, `relocate_only_live` is equivalent to "the
+evacuation orders are the ones the selection rule allows"; it hides no reachable `.corrupt` exit. -/
+theorem defragAll_total {V : Type} (s : State V) (inv : Inv s) (ch : List (Nat × List Nat)) :
+    (∃ s', defragAll s ch = .ok s') ↔
+      PassLegal ch ({ s with relog := [] } : State V) (List.range nClasses) := by
+  rw [defragAll_eq]
+  constructor
+  · rintro ⟨s', h⟩; exact foldClass_legal _ _ s' h
+  · intro h
+    obtain ⟨s', e, _⟩ := foldClass_total (ch := ch) (List.range nClasses) _
+      (fun x hx => List.mem_range.1 hx) (relogClear_inv inv) h
+    exact ⟨s', e⟩
+
+/-- Whatever evacuation orders are offered, a pass from a state satisfying `Inv` either succeeds or is
+rejected as `.illegalChoice`: it never reaches `.corrupt` (nor any other error). -/
+theorem defragAll_never_corrupt {V : Type} (s : State V) (inv : Inv s) (ch : List (Nat × List Nat)) :
+    (∃ s', defragAll s ch = .ok s') ∨ defragAll s ch = .error .illegalChoice := by
+  rw [defragAll_eq]
+  exact foldClass_ok_or_illegal _ _ (fun x hx => List.mem_range.1 hx) (relogClear_inv inv)
+
+/-- An accepted choice always exists: from every state satisfying `Inv` there are evacuation orders (per class:
+the non-full pages sorted by `used`, cut where the selection loop stops) with which the whole pass succeeds;
+for a single class, some order satisfies `choiceOk`.  So `PassLegal` / `choiceOk` are satisfiable in every
+reachable state — the defrag theorems are never vacuous for want of a legal order. -/
+theorem accepted_choice_exists {V : Type} (s : State V) (inv : Inv s) :
+    (∀ c, ∃ ev, choiceOk s c ev = true) ∧ ∃ ch s', defragAll s ch = .ok s' := by
+  refine ⟨fun c => choiceOk_exists inv c, ?_⟩
+  obtain ⟨ch, s', h⟩ := foldClass_exists (List.range nClasses) ({ s with relog := [] } : State V)
+    List.nodup_range (fun x hx => List.mem_range.1 hx) (relogClear_inv inv)
+  exact ⟨ch, s', by rw [defragAll_eq]; exact h⟩
+
+/-- A trace whose operations are legal when issued — Free and owner writes name live pointers, defrag passes
+offer accepted evacuation orders (`TraceLegal`, judged in the state each operation is issued in) — runs to
+completion from every state satisfying `Inv`, and the final state satisfies `Inv`.  With `init_inv`: from the
+empty allocator.  Hence `alloc_inv` / `rep_inv` / `counters_exact` (stated for `run init ops = .ok s`) apply to
+every such trace. -/
+theorem run_total {V : Type} (s : State V) (inv : Inv s) (ops : List (Op V)) (h : TraceLegal s ops) :
+    ∃ s', run s ops = .ok s' ∧ Inv s' := run_total_aux ops s inv h
+
+/-- Any trace at all, from the empty allocator: the run succeeds, or it stops at a caller error — Free / write
+of a pointer that is not live (`.notLive`) or a rejected evacuation order (`.illegalChoice`).  The exits
+`.corrupt`, `.pageReleaseBranch`, `.dispatchMismatch` are unreachable. -/
+theorem run_never_corrupt {V : Type} (ops : List (Op V)) :
+    (∃ s, run (init : State V) ops = .ok s) ∨ run (init : State V) ops = .error .notLive ∨
+      run (init : State V) ops = .error .illegalChoice := run_ok_or_caller_aux ops init init_inv
+
+-- non-vacuity: a legal trace with a Free of a live pointer and a (trivial) defrag pass; `PassLegal` is
+-- satisfiable; a rejected order really is reported as `.illegalChoice`.
+example : PassLegal ([] : List (Nat × List Nat)) ({ (init : State Nat) with relog := [] }) (List.range nClasses) :=
+  (defragAll_total init init_inv []).1 (by
+    have hf : ∀ (l : List Nat) (s : State Nat), (∀ c, wantsDefrag s c = false) →
+        foldE (classStep []) s l = .ok s := by
+      intro l; induction l with
+      | nil => intro s _; rfl
+      | cons c r ih => intro s h; simp only [foldE, classStep, h c]; exact ih s h
+    exact ⟨_, by rw [defragAll_eq]; exact hf _ _ (by intro c; simp [wantsDefrag, State.K, init])⟩)
+example : TraceLegal (init : State Nat) [.defrag [], .malloc 10] := by
+  refine ⟨?_, fun _ _ => ⟨trivial, fun _ _ => trivial⟩⟩
+  refine (defragAll_total init init_inv []).1 ?_
+  have hf : ∀ (l : List Nat) (s : State Nat), (∀ c, wantsDefrag s c = false) →
+      foldE (classStep []) s l = .ok s := by
+    intro l; induction l with
+    | nil => intro s _; rfl
+    | cons c r ih => intro s h; simp only [foldE, classStep, h c]; exact ih s h
+  exact ⟨_, by rw [defragAll_eq]; exact hf _ _ (by intro c; simp [wantsDefrag, State.K, init])⟩
+example : ∃ (s : State Nat) (a : Addr), Inv s ∧ TraceLegal s [.free a, .malloc 5] := by
+  obtain ⟨s', a, h⟩ := malloc_total (init_inv (V := Nat)).g 10
+  have i1 := malloc_inv init_inv h
+  have hl : s'.isLive a := by simp [State.isLive, i1.2.2, KMap.get?_set]
+  exact ⟨s', a, i1.1, hl, fun _ _ => ⟨trivial, fun _ _ => trivial⟩⟩
+example : choiceOk (init : State Nat) 0 [] = true ∧ choiceOk (init : State Nat) 0 [1] = false := by
+  simp [choiceOk, State.K, init]
+
+/-- A relocating defragClass pass, inside Lean (non-vacuity of the relocation branch of `relocate_step`,
+`contents_preserved`, `relocate_only_live` and of `defragClass_total`).  From the empty allocator `Malloc(131040)`
+reaches `s1` (class 49, 8 slots per page, the record in slot (page 1, slot 0)); defragClass of class 49 accepts the
+evacuation order [page 1], relocates the record to (page 2, slot 0) — exactly one relocate call is logged, the
+new slot is live with the same size and value and a correct slice header, the old one is not, page 1 is
+unmapped — and both states satisfy `Inv`.  Evaluated by `simp` with the map laws (Std.HashMap does not reduce
+in the kernel).  `s1` is below the 12 MB trigger of DefragAllImproved (`wantsDefrag`), so this is a pass of
+defragClass, not of `defragAll`: a reachable state above the trigger needs a trace of > 200 operations;
+such passes are exercised by the correspondence run only (evidence `defrag:pass relocated=…`). -/
+theorem relocating_pass_witness :
+    ∃ (s1 s' : State Nat), run init [.malloc 131040] = .ok s1 ∧ Inv s1 ∧
+      choiceOk s1 49 [1] = true ∧ defragClass s1 49 [1] = .ok s' ∧ Inv s' ∧
+      s'.relog = [(Addr.sh 1 0, Addr.sh 2 0)] ∧
+      s1.live.get? (.sh 1 0) = some ⟨131040, none⟩ ∧
+      s'.live.get? (.sh 2 0) = some ⟨131040, none⟩ ∧ s'.live.get? (.sh 1 0) = none ∧
+      s'.pages.get? 1 = none ∧
+      s'.mem.get? (.sh 2 0) = some ⟨some (.sh 2 0), 131040, 131040, none⟩ := by
+  have hrun : run (init : State Nat) [.malloc 131040] = .ok exS1 := by
+    simp [run, foldE, step, exS1_malloc]
+  have i1 : Inv exS1 := alloc_inv _ _ hrun
+  obtain ⟨f1, f2, f3, f4, f5⟩ := exS2_facts
+  exact ⟨exS1, exS2, hrun, i1, exS1_choice, exS1_defrag, defragClass_inv (by decide) i1 exS1_defrag,
+    f1, by simp [exS1, KMap.get?_set], f2, f3, f4, f5⟩
 
 /-- Malloc never hands out memory that is live: the returned slot was not live before, it is a slot of
 a mapped page below `brk ≤ cap` (hence inside the page, `slots_disjoint_inside_page`), or a fresh
@@ -378,6 +496,33 @@ theorem page_chain_agrees {V : Type} (s : State V) (r : Rep s) :
      fun q hq => ⟨(r.plist c).nx_in p hp q hq, (r.plist c).back p hp q hq⟩⟩⟩
 
 example : Rep (init : State Nat) := init_rep
+
+/-- The node writes of the pointer layer are contained in the `clobber` sets.  "A live allocation keeps its
+bytes" (`contents_preserved`, `slice_shape`) is a statement about `State.mem`; the allocator writes `mem` only
+through `clobber s.mem wr` in allocSlot / freeSlot / beginEvac, while the link writes themselves are the `setN`
+calls inside hPop / hPush / hPurge on `State.heap`.  This theorem ties the two: in each primitive transition
+every step is composed of, every slot y whose node (`heap.N y`: prev, next, prevInPage, nextInPage) is changed
+by the heap operation holds `junk` in `mem` afterwards, i.e. it is in the `wr` list of that transition — the
+lists are not too small.  (newPage / endEvac write page headers only: no node changes.)  `InvG` / `Rep` hold at
+every such point of every reachable run (`alloc_inv`, `rep_inv` and the per-transition lemmas of
+Proofs/C20Inv, C20Ptr).  Since a clobbered slot that is live would lose `LiveOk` (Data = slot), which `alloc_inv`
+proves is kept, no node write ever lands in a live allocation. -/
+theorem node_writes_clobbered {V : Type} (s : State V) (inv : InvG s) (r : Rep s) :
+    (∀ c s' p i, allocSlot s c = .ok (s', p, i) →
+      ∀ y, s'.heap.N y ≠ s.heap.N y → s'.mem.get? (.sh y.1 y.2) = some junk) ∧
+    (∀ p i h, s.pages.get? p = some h →
+      ∀ y, (freeSlot s p i h).heap.N y ≠ s.heap.N y → (freeSlot s p i h).mem.get? (.sh y.1 y.2) = some junk) ∧
+    (∀ c pg s', beginEvac s c pg = .ok s' →
+      ∀ y, s'.heap.N y ≠ s.heap.N y → s'.mem.get? (.sh y.1 y.2) = some junk) ∧
+    (∀ c y, (newPage s c).heap.N y = s.heap.N y) ∧
+    (∀ c pg s', endEvac s c pg = .ok s' → ∀ y, s'.heap.N y = s.heap.N y) :=
+  ⟨fun _ _ _ _ hr y hy => allocSlot_writes_clobbered inv r hr y hy,
+   fun _ _ _ hp y hy => freeSlot_writes_clobbered r hp y hy,
+   fun _ _ _ hr y hy => beginEvac_writes_clobbered inv r hr y hy,
+   fun c y => newPage_writes_none s c y,
+   fun _ _ _ hr y => endEvac_writes_none hr y⟩
+
+example : InvG (init : State Nat) ∧ Rep (init : State Nat) := ⟨init_invG, init_rep⟩
 
 /-- The allocator's accounting equals the counted values in every reachable state: Allocs = number of
 live allocations, freeSlots[class] = Σ header.free over the pages of the class's page list, SharedMmaps =
